@@ -18,10 +18,12 @@
 EXTENDS Forests, Rat, Json
 CONSTANTS As, Bs, Alphas, Ls,   \* sets of rationals
           MaxN,
+          ExtraKN,              \* further <<K, n>> pairs beyond K <= n <= MaxN (hundreds of clones / data points)
           ShapeOffByOne,        \* deviation: s = a + K
           Dump
 VARIABLE pt
 Init == pt \in [a : As, b : Bs, alpha : Alphas, L : Ls, n : 1..MaxN, K : 1..MaxN]
+              \cup {[a |-> x.a, b |-> x.b, alpha |-> x.alpha, L |-> x.L, n |-> e[2], K |-> e[1]] : x \in [a : As, b : Bs, alpha : Alphas, L : Ls], e \in ExtraKN}
 Next == UNCHANGED pt
 Valid == pt.K <= pt.n
 S == LET k1 == IF ShapeOffByOne THEN pt.K ELSE pt.K - 1 IN RAdd(pt.a, RInt(k1))      \* shape of the lighter component
